@@ -146,7 +146,7 @@ def deep_equal(seq1: Iterable[Any],
                         elif isinstance(value2, Decimal):
                             if value1 != float(value2):
                                 return False
-                        elif not isinstance(value2, (value1.__class__, int)):
+                        elif not isinstance(value2, (float, int)):
                             return False
                         elif value1 != value2:
                             return False
@@ -160,7 +160,7 @@ def deep_equal(seq1: Iterable[Any],
                         elif isinstance(value1, Decimal):
                             if value2 != float(value1):
                                 return False
-                        elif not isinstance(value1, (value2.__class__, int)):
+                        elif not isinstance(value1, (float, int)):
                             return False
                         elif value1 != value2:
                             return False
@@ -300,12 +300,14 @@ def deep_compare(obj1: Any,
                 try:
                     if isinstance(value1, bool):
                         if not isinstance(value2, bool):
-                            return -1
+                            msg = msg_tmpl.format(value1, value2)
+                            raise xpath_error('XPTY0004', msg, token)
                         elif value1 is not value2:
-                            return -1 if value1 else 1
+                            return 1 if value1 else -1  # false() precedes true()
 
                     elif isinstance(value2, bool):
-                        return -1
+                        msg = msg_tmpl.format(value1, value2)
+                        raise xpath_error('XPTY0004', msg, token)
 
                     elif isinstance(value1, UntypedAtomic):
                         if isinstance(value2, UntypedAtomic):
@@ -331,22 +333,24 @@ def deep_compare(obj1: Any,
                         elif isinstance(value2, Decimal):
                             if value1 != float(value2):
                                 return -1 if value1 < float(value2) else 1
-                        elif not isinstance(value2, (value1.__class__, int)):
-                            return -1
+                        elif not isinstance(value2, (float, int)):
+                            msg = msg_tmpl.format(value1, value2)
+                            raise xpath_error('XPTY0004', msg, token)
                         elif value1 != value2:
                             return -1 if value1 < value2 else 1
 
                     elif isinstance(value2, float):
                         if math.isnan(value2):
-                            return -1
+                            return 1  # NaN precedes any other value
                         elif math.isinf(value2):
                             if value1 != value2:
                                 return -1 if value1 < value2 else 1
                         elif isinstance(value1, Decimal):
                             if value2 != float(value1):
                                 return -1 if float(value1) < value2 else 1
-                        elif not isinstance(value1, (value2.__class__, int)):
-                            return -1
+                        elif not isinstance(value1, (float, int)):
+                            msg = msg_tmpl.format(value1, value2)
+                            raise xpath_error('XPTY0004', msg, token)
                         elif value1 != value2:
                             return -1 if value1 < value2 else 1
 
